@@ -23,7 +23,7 @@ def abort_frame(dll, src, dst, pgn, reason=2, session=0):
     return tp21.can_id(7, 0x4D, dst, src), data, True
 
 
-def h_history(ex, dll, steps, windows=(2, 2, 2), explore=False):
+def h_history(ex, dll, steps, windows=(2, 2, 2), explore=False, fixed=None):
     """steps: list of [src, dst, kind, L]; every step ends with a symbolic outcome and is followed by quiescence.
     explore: all interleavings of deliveries and job passes during the history (canonical schedule otherwise)"""
     w = W.World(ex, mode='interleave')
@@ -34,12 +34,18 @@ def h_history(ex, dll, steps, windows=(2, 2, 2), explore=False):
     hist = []
     for i, (s, d, kind, L) in enumerate(steps):
         npk = (L + seg - 1) // seg
-        sel = ex.fresh_int('outcome%d' % i, 0, len(OUTCOMES) - 1)
-        sel = int(sel)          # case split by the solver
-        outcome = OUTCOMES[sel]
+        if fixed is not None:
+            # long histories: outcome and fault position of every step are given (payloads stay symbolic)
+            outcome, k = fixed[i % len(fixed)]
+            k = min(k, 2 * npk + 3)
+        else:
+            sel = ex.fresh_int('outcome%d' % i, 0, len(OUTCOMES) - 1)
+            sel = int(sel)          # case split by the solver
+            outcome = OUTCOMES[sel]
         if kind != 'p2p' and outcome in ('responder_aborts', 'originator_aborts', 'responder_silent'):
             outcome = 'clean'
-        k = ex.fresh_int('k%d' % i, 0, 2 * npk + 3) if outcome != 'clean' else 0
+        if fixed is None:
+            k = ex.fresh_int('k%d' % i, 0, 2 * npk + 3) if outcome != 'clean' else 0
         base = len(w.log)
         pgn = 0xD000 if kind == 'p2p' else 0xFE10
         hook = None
@@ -327,6 +333,16 @@ def jobs(tier):
                 J('h_history', dll=dll, steps=steps, wall=3000)
         for steps in two:
             J('h_history', dll=dll, steps=steps, wall=900)
+        # long histories (12; thorough 40 steps): outcomes and fault positions from a fixed rotating schedule, so that every
+        # outcome occurs several times at different frames and the J1939-22 session numbers wrap around
+        sched = [['clean', 0], ['frame_lost', 1], ['responder_aborts', 2], ['clean', 0], ['originator_silent', 3], ['frame_lost', 4],
+                 ['responder_silent', 1], ['originator_aborts', 3], ['frame_lost', 0], ['responder_aborts', 0], ['clean', 0], ['frame_lost', 2],
+                 ['originator_silent', 1], ['responder_silent', 3], ['frame_lost', 5], ['originator_aborts', 1], ['frame_lost', 3]]
+        dirs = [['A', 'B', 'p2p', L2], ['B', 'A', 'p2p', L2], ['A', 'C', 'p2p', L1], ['A', 'B', 'bam', L2], ['C', 'A', 'p2p', L2], ['B', 'A', 'bam', L2], ['A', 'B', 'p2p', L1]]
+        for nsteps in ((12,) if q else (12, 25, 40)):
+            J('h_history', dll=dll, steps=[dirs[i % len(dirs)] for i in range(nsteps)], fixed=sched, wall=900)
+            if not q:
+                J('h_history', dll=dll, steps=[dirs[(i * 3 + 1) % len(dirs)] for i in range(nsteps)], fixed=sched[5:] + sched[:5], wall=900)
         J('h_inbound', dll=dll, n_in=1)
         J('h_inbound', dll=dll, n_in=2)
         J('h_inbound', dll=dll, n_in=2, long_out=True)
@@ -341,7 +357,8 @@ def meta(tier):
         'bounds': ['histories of ' + ('1..2' if tier == 'quick' else '1..3') + ' transfers between three real stacks (listed in jobs()), each with a symbolic outcome from ' + str(OUTCOMES) + ' at a symbolic frame index, each followed by quiescence (7 s)',
                    'afterwards the full advertised concurrency is started at once: J1939-21 all six directed pairs plus one BAM per stack; J1939-22 8 RTS/CTS + 4 BAM from one stack; every message must be accepted and delivered exactly once intact; one call beyond the capacity must be refused without emitting a frame',
                    'inbound sessions (1-2, payload symbolic) in flight while the stack starts its full outbound concurrency after a symbolic number of bus frames, and again after they ended',
+                   'long histories of 12' + ('' if tier == 'quick' else ', 25 and 40') + ' transfers with outcomes and fault positions from a fixed rotating schedule (payloads symbolic)',
                    'canonical schedule (no interleaving exploration: C10 quantifies over histories, C01/C02/C06 over schedules)'],
-        'outside': ['histories longer than ' + ('2' if tier == 'quick' else '3') + ' (supported, not claimed, by the return-to-fresh observation: see observations in this file)', 'other interleavings'],
+        'outside': ['histories longer than ' + ('2' if tier == 'quick' else '3') + ' with symbolic outcomes, other long histories than the listed ones (supported, not claimed, by the return-to-fresh observation: see observations in this file)', 'other interleavings'],
         'assumptions': [],
     }
